@@ -746,6 +746,19 @@ func (g *gctx) genLRShape(rules []*Rule) {
 	indirect := g.pct(30) && len(rules) >= 3
 	if indirect {
 		// E <- M op T / T ; M <- E
+		if g.pct(50) {
+			// a name that sorts before the others: the analysis then picks the alias as the cycle's leader,
+			// so the cycle is entered through a rule that is not its leader
+			old := rules[2].Name
+			rules[2].Name = "A2"
+			for _, r := range rules {
+				walkNodes(r.Expr, func(n *Node) {
+					if n.K == KRef && n.Ref == old {
+						n.Ref = "A2"
+					}
+				})
+			}
+		}
 		self = rules[2].Name
 		rules[2].Expr = mkRef(e.Name)
 		if g.pct(50) {
